@@ -381,6 +381,22 @@ func schedOp(w *schedWorld, name string) func() string {
 		d := &discard{}
 		c, err := tk.ToSealedWriter(d, pk)
 		return func() string { return fmt.Sprintf("%s %d %s", errStr(err), d.n, c) }
+	case "SealScribbleSeal":
+		// what an encoder returns belongs to the caller: it is overwritten here (a caller that
+		// frames or wipes its buffer in place), and the token is encoded again
+		b1, _, _ := tk.ToSealed(pk)
+		for i := range b1 {
+			b1[i] = 0xff
+		}
+		j1, _ := tk.ToDagJson(pk)
+		for i := range j1 {
+			j1[i] = 0xff
+		}
+		b, c, err := tk.ToSealed(pk)
+		j, jerr := tk.ToDagJson(pk)
+		return func() string {
+			return fmt.Sprintf("%s %x %s %s %x", errStr(err), harnessCID(b), c, errStr(jerr), harnessCID(j))
+		}
 	case "ToSealedWriterAfterFailure":
 		// a sealing whose sink fails part-way (an ordinary event for a network writer), then the
 		// same sealing into a good sink: the second is what it always is
@@ -1128,10 +1144,10 @@ func genSched(r *Rand, g GenCfg) Plan {
 	for i := 0; i < nl; i++ {
 		targets = append(targets, fmt.Sprintf("dlg%d", i))
 	}
-	invOps := []string{"ExecutionAllowed", "ExecutionAllowed", "ExecutionAllowed", "ExecutionAllowed", "ExecutionAllowed", "ExecutionAllowedHook", "ExecutionAllowedEmptyStore", "ExecutionAllowedPartialStore", "ToSealed", "ToSealedWriter", "ToSealedWriterAfterFailure", "ToDagCbor", "ToDagJson", "Encode", "Accessors", "Derived", "IsValid",
+	invOps := []string{"ExecutionAllowed", "ExecutionAllowed", "ExecutionAllowed", "ExecutionAllowed", "ExecutionAllowed", "ExecutionAllowedHook", "ExecutionAllowedEmptyStore", "ExecutionAllowedPartialStore", "ToSealed", "ToSealedWriter", "ToSealedWriterAfterFailure", "SealScribbleSeal", "ToDagCbor", "ToDagJson", "Encode", "Accessors", "Derived", "IsValid",
 		"ArgsIter", "ArgsString", "ArgsToIPLD", "ArgsGetNode", "ArgsEquals", "ArgsClone", "ArgsCloneMutate", "MetaCloneMutate", "ExecutionAllowedHookAdd", "ExecutionAllowedHookInclude", "ExecutionAllowedHookInclude", "MetaIter", "MetaString", "MetaGet", "MetaGetEncrypted", "MetaEquals", "MetaClone",
 		"StoreGet", "StoreIter", "ContainerWrite"}
-	dlgOps := []string{"ToSealed", "ToSealedWriter", "ToSealedWriterAfterFailure", "ToDagJson", "Encode", "Accessors", "Derived", "Derived", "IsValid", "MetaIter", "MetaString", "MetaGet", "MetaEquals", "MetaClone", "MetaCloneMutate", "PolicyString", "PolicyMatch", "PolicyMatchAlt", "PolicyMatchAlt", "StoreGet"}
+	dlgOps := []string{"ToSealed", "ToSealedWriter", "ToSealedWriterAfterFailure", "SealScribbleSeal", "SealScribbleSeal", "ToDagJson", "Encode", "Accessors", "Derived", "Derived", "IsValid", "MetaIter", "MetaString", "MetaGet", "MetaEquals", "MetaClone", "MetaCloneMutate", "PolicyString", "PolicyMatch", "PolicyMatchAlt", "PolicyMatchAlt", "StoreGet"}
 	decodeOps := []string{"DecodeSealed", "DecodeForged", "DecodeTyped", "DecodeForgedTyped", "DecodeDagCbor", "DecodeForgedDagCbor", "DecodeContainer"}
 	if g.Focus == "C06" {
 		// decoders only, honest and forged bytes of the same token side by side
